@@ -517,3 +517,9 @@ mod tests {
         }
     }
 }
+
+// Verification hooks: compiled only with --cfg dswd_vpncloud_verif; the code lives outside of this repository
+#[cfg(dswd_vpncloud_verif)]
+pub mod verif_hooks_common {
+    include!(concat!(env!("VPNCLOUD_VERIF_DRIVER_DIR"), "/hooks_common.rs"));
+}
